@@ -168,6 +168,9 @@ class Canon:
       return ('Z', tag, sym(type(x)), tuple(sorted((self.go(e) for e in x), key=repr)))
     if self.mode == 'built':
       return self.built_object(x, tag)
+    if hasattr(x, 'vt_bound'):
+      return ('Obj', tag, sym(type(x)),
+              tuple((k, self.go(v)) for k, v in sorted(x.vt_bound.items())))
     if isinstance(x, functools.partial):
       return ('P', tag, self.go(x.func), tuple(self.go(a) for a in x.args),
               tuple((k, self.go(v)) for k, v in sorted(x.keywords.items())))
